@@ -250,6 +250,7 @@ void InterfacePayload::setData(const uint8_t* streamIds,
     ptr += sizeof(streamIdsCount);
     memcpy(ptr, streamIds, streamIdsCount);
     ptr += streamIdsCount;
+    memset(ptr, 0, padding);
     ptr += padding;
 
     swappedLength = swapEndian(vendorDataLength);
